@@ -254,6 +254,16 @@ def run_site(chk: Check, sc: Scratch, idx: int, nhist: int, histlen: int) -> Non
                         v = None
                 if v is not None:
                     baseline[(data, tls)] = validate.normalize_ts(resp.data)
+                    if gi % 4 == 1 and len(data) > 2:
+                        # the same bytes arriving in two or three pieces are the same request
+                        driver.clean_server_files(root)
+                        cuts = sorted({rng.randrange(1, len(data)) for _ in range(rng.choice([1, 2]))})
+                        r2 = site.request(data, tls=tls, segments=cuts)
+                        chk.count("wellformed_requests_delivered_in_pieces")
+                        if validate.normalize_ts(r2.data) != baseline[(data, tls)] or r2.escaped:
+                            chk.witness("C03/reply-depends-on-how-the-request-bytes-were-segmented",
+                                        {"request": data[:200], "cuts": cuts, "whole": baseline[(data, tls)][:200], "in_pieces": r2.data[:200],
+                                         "log": r2.log[:3], "ctx": hl_name})
             chk.count("wellformed_requests", len(good))
             # B: hostile requests (each also on a pristine tree)
             hostile = hostile_requests(rng, model, full)
